@@ -63,6 +63,7 @@ type FleetScript struct {
 	ReadyAfter  time.Duration // instances report running this long after creation; <0 = never
 	FailMessage string        // non-empty: return no instances and this error message in Errors
 	WithErrors  bool          // return instances AND an Errors entry (the documented partial-error case)
+	Short       int64         // return this many instances fewer than asked for (at least one is returned)
 	PageSize    int           // page size of DescribeInstanceStatusPages
 	NilActivity bool
 	Empty       bool // answer with neither instances nor errors
@@ -481,7 +482,13 @@ func (s *EC2Service) CreateFleet(in *ec2.CreateFleetInput) (*ec2.CreateFleetOutp
 	now := time.Now()
 	lifecycle := fr.DefaultType
 	ids := make([]string, 0, fr.Total)
-	for i := int64(0); i < fr.Total; i++ {
+	give := fr.Total
+	if c.Fleet.Short > 0 && give > 1 {
+		if give -= c.Fleet.Short; give < 1 {
+			give = 1
+		}
+	}
+	for i := int64(0); i < give; i++ {
 		inst := &Instance{ID: c.NewInstanceID("f"), AZ: az, Launch: now, State: "pending", Lifecycle: lifecycle, FromFleet: true}
 		if c.Fleet.ReadyAfter < 0 {
 			inst.ReadyAt = -1
